@@ -1064,6 +1064,16 @@ def external(I, dotted):
         return Builtin(dotted, refn)
     if dotted == "copy.copy":
         return I.builtins["copy.copy"]
+    if mod == "os.path" and name in ("basename", "dirname", "splitext", "split", "join", "normpath"):
+        import os.path as _osp
+        real = getattr(_osp, name)
+
+        def pathfn(*a):
+            if not all(isinstance(x, str) for x in a):
+                raise AnalysisError(f"os.path.{name} of a symbolic path")
+            r = real(*a)
+            return tuple(r) if isinstance(r, tuple) else r
+        return Builtin(dotted, pathfn)
     if dotted in ("itertools", "collections", "functools", "operator", "weakref"):
         return ModuleVal(dotted, external=dotted)
     if dotted in ("weakref.WeakValueDictionary", "weakref.WeakKeyDictionary"):
